@@ -24,6 +24,10 @@
 (* date value behind the reply: [secs since the Unix epoch (Z), ns, exact   *)
 (* UTC offset, variant]; ev.zl = the zone-naming literals of the query with *)
 (* the offset the code reported for each when evaluated alone.              *)
+(* ev.clock (optional) = <<y, m, d, h, mi, s>>: the UTC time the harness   *)
+(* set the context clock to before this query (Context::set_time).  With   *)
+(* it a time-only literal and `now` are determinate; without it a          *)
+(* time-only literal is judged by its written fields alone.                *)
 (***************************************************************************)
 EXTENDS Eval, DateTime, TLC, Json, IOUtils
 
@@ -75,11 +79,25 @@ ZoneOffsetFor(toks, zl) ==
   LET hits == {i \in DOMAIN zl : DateToksOf(zl[i].lit) = toks}
   IN IF hits = {} THEN <<>> ELSE <<zl[CHOOSE i \in hits : TRUE].off>>
 LitValueZ(s, toks, zl) == ValueOfSummary(s, IF LitIsZoned(s) THEN ZoneOffsetFor(toks, zl) ELSE <<>>)
+\* a literal inside an expression (s: its summary; ck: the clock or <<>>):
+\*  - a time-only literal with a fixed or no offset, the clock known: that time on the clock's day
+\*  - exactly one reading, a soft one (second 60, minute 60, hour 24, a contradicting weekday): refused, or its
+\*    arithmetic reading - the laws (d + t) - d = t, (d - t) + t = d hold for every instant a literal denotes
+\*  - otherwise as LitValueZ
+LitValueS(s, toks, zl, ck) ==
+  IF ~s.silent /\ s.valid = {} /\ s.ninvalid = 0 /\ Cardinality(s.partial) = 1 /\ ck # <<>>
+     /\ \A pc \in s.partial : pc.nodate /\ pc.ok # 2
+  THEN R2(VDate(TodayInstant(CHOOSE pc \in s.partial : TRUE, ck)), FALSE)
+  ELSE IF ~s.silent /\ s.partial = {} /\ s.ninvalid = 0 /\ Cardinality(s.valid) = 1
+          /\ \A r \in s.valid : r.c = "fixed" /\ r.soft /\ r.win = 0
+  THEN R2(VDate((CHOOSE r \in s.valid : TRUE).inst), TRUE)
+  ELSE R2(LitValueZ(s, toks, zl), FALSE)
 
-RECURSIVE DEv(_, _)
-DEv(e, zl) ==
-  IF e.k = "date" THEN R2(LitValueZ(LitSummary(e.toks), e.toks, zl), FALSE)
-  ELSE IF e.k = "bin" /\ e.op \in {"add", "sub"} THEN DEvBin(e.op, DEv(e.l, zl), DEv(e.r, zl))
+RECURSIVE DEv(_, _, _)
+DEv(e, zl, ck) ==
+  IF e.k = "date" THEN LitValueS(LitSummary(e.toks), e.toks, zl, ck)
+  ELSE IF e.k = "unit" /\ e.name = W_now /\ ck # <<>> THEN R2(VDate(ClockInstant(ck)), FALSE)
+  ELSE IF e.k = "bin" /\ e.op \in {"add", "sub"} THEN DEvBin(e.op, DEv(e.l, zl, ck), DEv(e.r, zl, ck))
   ELSE R2(Ev(e, JudgeEnv), FALSE)
 
 -----------------------------------------------------------------------------
@@ -112,18 +130,36 @@ ObsIsInstant(o, inst, win) ==
 \* replies of conversions to a named zone (no value to look at): exact agreement, or whole seconds within the slack
 ObsIsInstantInZone(o, inst) == ObsWellFormed(o) /\ (ZEq(ObsInstant(o), inst) \/ OffsetSlack(ZSub(ObsInstant(o), inst)))
 
+\* a partial reading (written fields pc) against a date reply: the reply has the written fields at the written offset;
+\* a time-only literal under a known clock ck: that time on the clock's day (named zone: the zone's offset is not
+\* specified, the reply's local day is the clock's UTC day or a neighbour of it)
+AbsInt(n) == IF n < 0 THEN -n ELSE n
+PartialOk(o, pc, ck) ==
+  /\ ObsWellFormed(o) /\ (HasExact(o) => ReplyMatchesValue(o))
+  /\ PCFits(pc, SubSeq(o.rfc, 1, 7), o.rfc[8])
+  /\ ((pc.nodate /\ ck # <<>>) =>
+        IF pc.ok = 2 THEN AbsInt(DaysFromCivil(o.rfc[1], o.rfc[2], o.rfc[3]) - DaysFromCivil(ck[1], ck[2], ck[3])) <= 1
+        ELSE ObsIsInstant(o, TodayInstant(pc, ck), 0))
+\* second 60 shown as such (a leap second: second 59 with a nanosecond count of 10^9 and more): the display is not the
+\* property's business, the value behind the reply is the instant
+LeapShown(o, r) == /\ r.leap /\ r.c = "fixed" /\ o.t = "date" /\ HasExact(o) /\ o.exact.ns >= 0 /\ o.exact.ns < 2 * Billion
+                   /\ Near(ExactInstant(o.exact), r.inst, r.win)
+
 \* a whole-query literal is judged relationally: every reading the documented patterns allow is admissible
-LitVerdict(toks, o, i) ==
+LitVerdict(toks, o, ck, i) ==
   \E s \in {LitSummary(toks)} :
   IF s.silent THEN PrintT(<<"SILENT", i>>)
   ELSE IF o.t = "crash" THEN PrintT(<<"CRASH", i>>)
-  ELSE LET errok == s.valid = {} \/ s.ninvalid > 0 \/ \E r \in s.valid : r.soft
-           dateok == \E r \in s.valid :
-                       IF r.c = "fixed" THEN ObsIsInstant(o, r.inst, r.win)
-                       ELSE /\ ObsWellFormed(o) /\ Near(ObsLocal(o), r.inst, r.win)  \* named zone: same local time
-                            /\ (HasExact(o) => ReplyMatchesValue(o))
+  ELSE LET \* an error: nothing valid, something invalid, a soft reading, an incomplete date, a time in a named zone
+           errok == (s.valid = {} /\ s.partial = {}) \/ s.ninvalid > 0 \/ (\E r \in s.valid : r.soft)
+                    \/ \E pc \in s.partial : ~pc.nodate \/ pc.ok = 2
+           dateok == \/ \E r \in s.valid :
+                          IF r.c = "fixed" THEN ObsIsInstant(o, r.inst, r.win) \/ LeapShown(o, r)
+                          ELSE /\ ObsWellFormed(o) /\ Near(ObsLocal(o), r.inst, r.win)  \* named zone: same local time
+                               /\ (HasExact(o) => ReplyMatchesValue(o))
+                     \/ \E pc \in s.partial : o.t = "date" /\ PartialOk(o, pc, ck)
        IN IF (o.t = "err" /\ errok) \/ dateok THEN TRUE
-          ELSE PrintT(<<"REJECT", i, ToJson([valid |-> s.valid, ninvalid |-> s.ninvalid])>>)
+          ELSE PrintT(<<"REJECT", i, ToJson([valid |-> s.valid, ninvalid |-> s.ninvalid, partial |-> s.partial])>>)
 
 \* the value of an expression against the reply
 ValueVerdict(r, o, i) ==
@@ -136,8 +172,8 @@ ValueVerdict(r, o, i) ==
   ELSE PrintT(<<"REJECT", i, ToJson(r.v)>>)
 
 \* `date -> +hh:mm` and `date -> "Zone"`: the same instant; offsets of 24 h or more are refused
-ConvVerdict(qa, o, zl, i) ==
-  \E r \in {DEv(qa.e, zl)} :
+ConvVerdict(qa, o, zl, ck, i) ==
+  \E r \in {DEv(qa.e, zl, ck)} :
   IF r.v.t = "err" THEN ValueVerdict(r, o, i)
   ELSE IF r.v.t # "date" THEN PrintT(<<"SILENT", i>>)
   ELSE IF o.t = "crash" THEN PrintT(<<"CRASH", i>>)
@@ -148,17 +184,18 @@ ConvVerdict(qa, o, zl, i) ==
   ELSE IF qa.conv.c = "tz" /\ ObsIsInstantInZone(o, r.v.inst) THEN TRUE
   ELSE PrintT(<<"REJECT", i, ToJson(r.v)>>)
 
+ClockOf(ev) == IF "clock" \in DOMAIN ev THEN ev.clock ELSE <<>>
 Verdict(ev, i) ==
   IF ~Supported(ev.q) THEN PrintT(<<"UNSUPPORTED", i>>)
   ELSE
-    \E qa \in {ParseQueryText(ev.q)} :
+    \E qa \in {ParseQueryText(ev.q)} : \E ck \in {ClockOf(ev)} :
     /\ IF ev.ast.k # "none" /\ ~(ev.ast.k = qa.k /\ (qa.k = "expr" => AstEq(qa.e, ev.ast.e)))
        THEN PrintT(<<"ASTDIFF", i>>) ELSE TRUE
     /\ IF qa.k = "expr" THEN
-          (IF qa.e.k = "date" THEN LitVerdict(qa.e.toks, ev.obs, i)
-           ELSE \E r \in {DEv(qa.e, ev.zl)} : ValueVerdict(r, ev.obs, i))
+          (IF qa.e.k = "date" THEN LitVerdict(qa.e.toks, ev.obs, ck, i)
+           ELSE \E r \in {DEv(qa.e, ev.zl, ck)} : ValueVerdict(r, ev.obs, i))
        ELSE IF qa.k = "convert" /\ qa.base = 0 /\ qa.digits.m = "default" /\ qa.conv.c \in {"offset", "tz"}
-            THEN ConvVerdict(qa, ev.obs, ev.zl, i)
+            THEN ConvVerdict(qa, ev.obs, ev.zl, ck, i)
        ELSE PrintT(<<"SILENT", i>>)
 
 Init == l = 1
